@@ -122,6 +122,24 @@ Theorem C15_ranges_reinit_servers : forall nf e c c',
 Proof. exact Chan_ranges.reinit_keeps_servers. Qed.
 Print Assumptions C15_ranges_reinit_servers.
 
+(* The HOSTALIASES file (ares_lookup_hostaliases): a raw line that does not define the alias being
+   looked up - another alias, the same alias with no target, with a target that is not a host name
+   (other characters, over-long), unprintable - can be inserted anywhere, in particular BEFORE
+   the line that does define it, without changing the result of the lookup. *)
+Theorem C15_hostaliases_junk_independent : forall name rs1 j rs2,
+  Forall no_nl rs1 -> no_nl j -> Forall no_nl rs2 -> junk_alias_line name j = true ->
+  lookup_hostaliases name (unlines (rs1 ++ j :: rs2)) = lookup_hostaliases name (unlines (rs1 ++ rs2)).
+Proof. exact junk_alias_file_independent. Qed.
+Print Assumptions C15_hostaliases_junk_independent.
+
+Theorem C15_hostaliases_junk_inhabited :
+  junk_alias_line (B "www") (B "www www.exa!mple.com") = true /\ junk_alias_line (B "www") (B "WWW => realhost") = true /\
+  junk_alias_line (B "www") (B "www") = true /\ junk_alias_line (B "www") (B "other host.example") = true /\
+  junk_alias_line (B "www") (B " Www  host.example  trailing words") = false /\
+  lookup_hostaliases (B "www") (unlines [B "www www.exa!mple.com"; B "www real.example.com"]) = Some (B "real.example.com").
+Proof. vm_compute. repeat split; reflexivity. Qed.
+Print Assumptions C15_hostaliases_junk_inhabited.
+
 (* The hosts file (ares_hosts_file.c).  Totality: reading any content succeeds and yields tables
    in which no entry dangles, so a lookup never follows a stale pointer ... *)
 Theorem C15_hosts_total : forall nf content, exists hf, parse_hosts nf content = Ok hf /\ hf_wf hf.
